@@ -195,6 +195,9 @@ def main():
         fn = getattr(mod, spec["func"])
         if hasattr(mod, "setup"):
             mod.setup()
+        if not getattr(mod, "NO_FAST_PATHS", False):
+            from kit import fast
+            fast.install()
 
         if spec["mode"] == "replay":
             h.TWIN = bool(spec.get("twin"))
